@@ -43,10 +43,10 @@ RULE = ("operation lists over add(prefix in 2, number in 0..3, timeout in {0.1,1
         "exception}, duplicate flavour) / add_random (scripted collisions with every claimed number first) / pop / "
         "get / has (by name or class) / retrieve_cache handler call / claim of the k-th earliest pending request / register_future / advance to the k-th pending "
         "deadline -eps|+0|+eps / sleep / 'at' (a sync op run as a loop callback at a deadline -eps|+0|+eps) / "
-        "passthrough(filter, timeout) around the next 1..3 ops / clear / shutdown, each list run in one virtual-time "
+        "passthrough(filter, timeout) around the next 1..3 ops / clear / shutdown / re-add of a resolved cache object, each list run in one virtual-time "
         "loop against the model and followed by a drain past every deadline ever set: all words to depth 6 (quick), "
-        "7 (thorough) over an 8-letter 'schedule' and an 8-letter 'lifecycle' alphabet plus depth 8 over their "
-        "6-letter cores (words that register nothing or start with a no-op on the empty cache are skipped as "
+        "7 (thorough) over an 8-letter 'schedule' and an 8-letter 'lifecycle' alphabet, depth 6 / 8 over a 7-letter 're-use' alphabet, plus depth 8 over the "
+        "6-letter cores of the first two (words that register nothing or start with a no-op on the empty cache are skipped as "
         "repeats of shorter words), plus Hypothesis-drawn lists up to 40 ops. Non-trivial = a claim/clear/shutdown within the "
         "loop iteration of the target's expiry, a pop issued from inside on_timeout, or shutdown with something "
         "outstanding; distinct = digest of the op list.")
@@ -185,7 +185,8 @@ class Entry:
     One cache object the harness created. status: spare (a same-identity twin that is never accepted), out,
     popped, timedout, cleared, shutdown, refused (add after shutdown).
     """
-    __slots__ = ("cid", "obj", "p", "n", "cls", "timeout", "beh", "status", "deadline", "futs", "twin", "timeouts")
+    __slots__ = ("cid", "obj", "p", "n", "cls", "timeout", "beh", "status", "deadline", "futs", "twin", "timeouts",
+                 "regs")
 
     def __init__(self, cid, obj, p, n, cls, timeout, beh):
         self.cid, self.obj, self.p, self.n, self.cls, self.timeout, self.beh = cid, obj, p, n, cls, timeout, beh
@@ -194,9 +195,17 @@ class Entry:
         self.futs: list = []      # (future, declared kind, declared object)
         self.twin = None
         self.timeouts = 0
+        self.regs = 0             # how often this object was accepted by add (> 1: it was put back after a resolution)
 
     def __repr__(self):
-        return f"cache#{self.cid}<{self.p}:{self.n} {self.status}>"
+        return f"cache#{self.cid}<{self.p}:{self.n} {self.status}{' re-added' if self.regs > 1 else ''}>"
+
+    @property
+    def sfx(self) -> str:
+        """
+        Site suffix: an object that was put back after a resolution is a different root cause than a fresh one.
+        """
+        return ":re-added" if self.regs > 1 else ""
 
 
 STALE_CLAUSE = {"timedout": "R2", "popped": "R2", "cleared": "R1", "shutdown": "R5", "refused": "R5", "spare": "R3"}
@@ -227,7 +236,7 @@ class Run:
         self.failed: Violation | None = None
         self.flags: set[str] = set()
         self.handler_calls: list = []
-        self.events = {"timeout": 0, "pop": 0, "keyerror": 0, "dup": 0}
+        self.events = {"timeout": 0, "pop": 0, "keyerror": 0, "dup": 0, "readd": 0}
         self.t0 = loop.time()
 
     # ---- plumbing ------------------------------------------------------------------------------------
@@ -278,7 +287,7 @@ class Run:
         t = self.now()
         for e in self.out.values():
             if e.deadline < t - TOL:
-                self.fail("R1", "timeout:missed", f"{e} was added with deadline {e.deadline - self.t0:.4f}, was never "
+                self.fail("R1", "timeout:missed" + e.sfx, f"{e} was added with deadline {e.deadline - self.t0:.4f}, was never "
                                                   f"claimed, and its on_timeout has still not been called")
 
     def check_table(self) -> None:
@@ -337,17 +346,17 @@ class Run:
         if self.is_shutdown:
             self.fail("R5", "on_timeout", f"on_timeout of {e} called after shutdown")
         if e.status == "popped":
-            self.fail("R2", "timeout_after_pop", f"on_timeout of {e} called although it was claimed by pop")
+            self.fail("R2", "timeout_after_pop" + e.sfx, f"on_timeout of {e} called although it was claimed by pop")
         if e.status == "timedout":
-            self.fail("R1", "timeout_twice", f"on_timeout of {e} called a second time")
+            self.fail("R1", "timeout_twice" + e.sfx, f"on_timeout of {e} called a second time")
         if e.status == "cleared":
-            self.fail("R1", "timeout_after_clear", f"on_timeout of {e} called after clear()")
+            self.fail("R1", "timeout_after_clear" + e.sfx, f"on_timeout of {e} called after clear()")
         if e.status == "spare":
             self.fail("R3", "duplicate_registered", f"on_timeout of {e}, a duplicate that must never have been accepted")
         if e.status != "out":
             self.fail("R1", "timeout_unregistered", f"on_timeout of {e} in state {e.status}")
         if t < e.deadline - TOL:
-            self.fail("R1", "timeout:early", f"on_timeout of {e} called {e.deadline - t:.4f}s before its deadline")
+            self.fail("R1", "timeout:early" + e.sfx, f"on_timeout of {e} called {e.deadline - t:.4f}s before its deadline")
         e.status = "timedout"
         del self.out[(e.p, e.n)]
         self.check_late()
@@ -397,6 +406,8 @@ class Run:
                 self.tie_future(cands[op[1] % len(cands)], op[2])
         elif kind == "clear":
             self.op_clear(where)
+        elif kind == "readd":
+            self.op_readd(op[1], where)
         else:
             raise HarnessError(f"unknown op {op}")
 
@@ -486,20 +497,44 @@ class Run:
             self.tie_future(e, fv)
         self.register(e, where)
 
+    def op_readd(self, slot: int, where: str) -> None:
+        """
+        Put a resolved cache object back (the same object is registered again).
+        """
+        cands = [e for e in self.entries if e.status in ("popped", "timedout", "cleared")]
+        if not cands or self.is_shutdown:
+            return
+        e = cands[slot % len(cands)]
+        cur = self.out.get((e.p, e.n))
+        if cur is not None:
+            try:
+                r = self.rc.add(e.obj)
+            except Exception as x:  # noqa: BLE001
+                self.fail("R3", "add:duplicate", f"add of {e} while {cur} holds the identity raised {x!r}")
+            if r is not None or self.rc.get(e.p, e.n) is not cur.obj:
+                self.fail("R3", "add:duplicate", f"add of {e} while {cur} holds the identity returned "
+                                                 f"{self.entry_of(r) or r}; get() = {self.entry_of(self.rc.get(e.p, e.n))}")
+            return
+        e.futs = [f for f in e.futs if not f[0].done()]
+        self.events["readd"] += 1
+        self.register(e, where)
+
     def register(self, e: Entry, where: str) -> None:
         t = self.now()
         try:
             r = self.rc.add(e.obj)
         except Exception as x:  # noqa: BLE001
-            self.fail("R5" if self.is_shutdown else "R3", "add:exception", f"add({e}) raised {x!r}")
+            self.fail("R5" if self.is_shutdown else "R3", "add:exception" + (":re-added" if e.regs else ""),
+                      f"add({e}) raised {x!r}")
         if self.is_shutdown:
             e.status = "refused"
             if r is not None:
                 self.fail("R5", "add_after_shutdown", f"add({e}) after shutdown returned the cache instead of None")
             return
         if r is not e.obj:
-            self.fail("R3", "add:refused", f"add({e}) returned {self.entry_of(r) or r} although the identity was free")
+            self.fail("R3", "add:refused" + (":re-added" if e.regs else ""), f"add({e}) returned {self.entry_of(r) or r} although the identity was free")
         e.status = "out"
+        e.regs += 1
         e.deadline = t + self.effective_timeout(e.cls, e.timeout)
         self.all_deadlines.append(e.deadline)
         self.out[(e.p, e.n)] = e
@@ -736,10 +771,12 @@ V0, VM, VP = ["adv", 0, 0], ["adv", 0, -1], ["adv", 0, 1]
 AT = ["at", 0, 0, ["pop", "pa", 0, 0]]
 SH, CL, PT = ["shutdown"], ["clear"], ["pt", 0, 0, 1]
 RT = ["retrieve", "pa", 0, 0]
+RE = ["readd", 0]
 
 ALPHABETS = {
     "schedule": [A0, A1, A2, P0, V0, VM, VP, AT],
     "lifecycle": [A0, A3, AR, SH, CL, PT, V0, RT],
+    "reuse": [A0, RE, P0, V0, VM, VP, CL],
     "schedule-core": [A0, A1, P0, V0, VP, AT],
     "lifecycle-core": [A0, A3, SH, CL, PT, V0],
 }
@@ -794,8 +831,9 @@ def _strategies():
     at = st.tuples(st.just("at"), st.integers(0, 5), eps, inner).map(list)
     pt = st.tuples(st.just("pt"), st.integers(0, len(FILTERS) - 1), st.integers(0, 2), st.integers(1, 3)).map(list)
     rare = st.sampled_from([["clear"], ["shutdown"]])
+    readd = st.tuples(st.just("readd"), st.integers(0, 5)).map(list)
     op = st.one_of(add, add, add, addr, pop, popc, popd, popd, popd, retrieve, adv, adv, adv, adv, sleep, at, at, pt, get,
-                   future, rare)
+                   future, rare, readd)
     adds = st.lists(st.one_of(add, add, addr), min_size=1, max_size=3)
     # motifs that aim a claim / clear / shutdown at a deadline; single ops fill the space between them
     motif = st.one_of(
@@ -813,10 +851,10 @@ def _random_shard(ctx: Ctx, shard: int, nshards: int, n: int) -> None:
 
 def run(ctx: Ctx) -> None:
     if ctx.quick:
-        plan = [("schedule", 6), ("lifecycle", 6)]
+        plan = [("schedule", 6), ("lifecycle", 6), ("reuse", 6)]
         n = 700
     else:
-        plan = [("schedule", 7), ("lifecycle", 7), ("schedule-core", 8), ("lifecycle-core", 8)]
+        plan = [("schedule", 7), ("lifecycle", 7), ("reuse", 8), ("schedule-core", 8), ("lifecycle-core", 8)]
         n = 25000
     shard_run(ctx, _exhaustive_shard, extra=(plan,))
     shard_run(ctx, _random_shard, extra=(n,))
